@@ -67,7 +67,11 @@ def _setitem_post(self, indices, values, OLD):
         SET_PROBLEMS.append(['keys changed', list(old_keys), list(self.keys())])
         return True
     idx = indices if isinstance(indices, tuple) else (indices,)
-    new = values.values() if hasattr(values, 'keys') else values
+    if hasattr(values, 'keys'):
+        by_key = dict(zip(values.keys(), values.values()))
+        new = [by_key[k] for k in old_keys]         # assignment from a multivector goes blade by blade
+    else:
+        new = values
     for j, (ov, cur) in enumerate(zip(old_vals, self.values())):
         ov = np.array(ov, dtype=float)
         exp = ov.copy()
@@ -217,7 +221,7 @@ def setitem_case(ctx, alg, cfg, name):
     X = array_mv(rng, alg, kx, shape, container)
     idx = rand_index(rng, shape)
     sub = X[idx]
-    how = rng.choice(['mv', 'raw', 'scalar-mv'])
+    how = rng.choice(['mv', 'raw', 'scalar-mv', 'mv-permuted-keys'])
     cid = [name, 'setitem', list(kx), list(shape), container, idx_repr(idx), how]
     if not ctx.want(cid):
         return
@@ -226,6 +230,14 @@ def setitem_case(ctx, alg, cfg, name):
     if how == 'mv':
         V = array_mv(rng, alg, kx, subshape, 'list')
         V = gen.mv_from(alg, kx, newvals)
+    elif how == 'mv-permuted-keys':
+        # the source holds the same blades in another key order (kingdon may refuse; if it accepts, coefficients go by blade)
+        if len(kx) < 2:
+            return
+        order = list(range(len(kx)))
+        while order == sorted(order):
+            rng.shuffle(order)
+        V = gen.mv_from(alg, [kx[i] for i in order], [newvals[i] for i in order])
     elif how == 'scalar-mv':
         if subshape != ():
             return      # a scalar-valued multivector assigned to a multi-entry slice relies on numpy broadcasting rules the statement does not fix
@@ -235,7 +247,8 @@ def setitem_case(ctx, alg, cfg, name):
         V = newvals
     # warm whatever the object may cache about itself, so that a value remembered across the in-place update is visible afterwards
     probes = {'normsq': lambda m: m.normsq(), 'norm': lambda m: m.norm(), 'reverse': lambda m: ~m, 'square': lambda m: m * m,
-              'grades': lambda m: m.grade(*m.grades[:1]), 'asfullmv': lambda m: m.asfullmv(), 'neg': lambda m: -m, 'normalized': lambda m: m.normalized()}
+              'grades': lambda m: m.grade(*m.grades[:1]), 'asfullmv': lambda m: m.asfullmv(), 'neg': lambda m: -m, 'normalized': lambda m: m.normalized(),
+              'inv': lambda m: m.inv(), 'involute': lambda m: m.involute(), 'outerexp': lambda m: m.outerexp()}
     used = rng.sample(sorted(probes), 3)
     for pn in used:
         ctx.guarded(20, probes[pn], X)
